@@ -96,3 +96,23 @@ CONTRACTS.append(
         pure_results=PURE,
     )
 )
+
+
+# Converse of the section-line contract: a line that starts with none of the section tokens of the three styles (nor with a
+# bare NumPy heading word, which the scanner is known to accept -- see its own comment) is NOT taken for a section start:
+# the scan goes on.  A token table that grows beyond the property's vocabulary (":key", ":note", "Example:" ...) fails here,
+# because header prose may start a line with such text.
+NOT_SECTION = " and ".join("not startswith(line, %r)" % t for t in SECTION_STARTS + ("Parameters", "Returns"))
+
+CONTRACTS.append(
+    Contract(
+        M + ":_get_token_start_idx#prose-line-not-a-section",
+        src=M + ":_get_token_start_idx",
+        block=("line = ", "stack.clear()", "between"),
+        block_exit="normal",
+        params={"line": "str", "idx": "int", "stack": "list:str", "doc_str": "str", "indent_amount": "int", "ch": "str"},
+        requires=[NOT_SECTION, "idx >= 0 and idx < length(doc_str)"],
+        ensures=["True"],
+        pure_results=PURE,
+    )
+)
